@@ -946,6 +946,7 @@ fn inject_upgrade(run: &mut Run, ctx: &mut Ctx, arg: &UpArg) -> bool {
             .sum()
     };
     let cfg_before = format!("{:?}", world::get_config());
+    let cfg_struct_before = world::get_config().ok();
     let up_arg = match arg {
         UpArg::None => None,
         UpArg::Threshold(t) => Some(ic_btc_interface::SetConfigRequest { stability_threshold: Some(*t as u128), ..Default::default() }),
@@ -978,12 +979,31 @@ fn inject_upgrade(run: &mut Run, ctx: &mut Ctx, arg: &UpArg) -> bool {
     ctx.cov.count("c09_before_after_snapshots_compared");
     ctx.cov.eval(Some(fp_str(&format!("c09|{}|{:?}|{}", phase, arg, run.sc.ops.len()))));
     match arg {
-        UpArg::None | UpArg::Flags => {
-            if cfg_before != cfg_after && matches!(arg, UpArg::None) {
+        UpArg::None => {
+            if cfg_before != cfg_after {
                 ctx.violation(format!("configuration changed across an upgrade: {} -> {}", cfg_before, cfg_after), None, json!({"ops": run.sc.ops}));
             }
         }
-        UpArg::Threshold(_) => {}
+        // with an argument: exactly the named settings take the given values, nothing else moves
+        UpArg::Flags | UpArg::Threshold(_) => {
+            if let (Some(mut want), Out::Ok(got)) = (cfg_struct_before, world::get_config()) {
+                match arg {
+                    UpArg::Threshold(t) => want.stability_threshold = *t as u128,
+                    _ => {
+                        want.lazily_evaluate_fee_percentiles = ic_btc_interface::Flag::Enabled;
+                        want.burn_cycles = ic_btc_interface::Flag::Disabled;
+                    }
+                }
+                ctx.cov.count("c09_upgrades_with_config_argument_checked");
+                if format!("{:?}", want) != format!("{:?}", got) {
+                    ctx.violation(
+                        format!("configuration after an upgrade with argument {:?} is {:?}, expected {:?}", arg, got, want),
+                        None,
+                        json!({"ops": run.sc.ops}),
+                    );
+                }
+            }
+        }
     }
     // answers: identical, except get_config entries when an argument was given
     let strip = |v: &Vec<(String, String)>| -> Vec<(String, String)> { v.iter().filter(|(k, _)| k != "get_config").cloned().collect() };
